@@ -375,8 +375,8 @@ def run(ctx):
             disagreements.append({"case": metas[k], "model": C.coq_show(PROP, ST.PREAMBLE, ST.FUN, cases[k][0])[-1200:]})
         disagreements.extend({"case": metas[k]} for k in failing[4:30])
     oracle_failures, descs = [], []
-    for fn, count in ((h1_session, ctx.scale(500, 8000, 2500)), (ws_session, ctx.scale(250, 4000, 1200)),
-                      (h2_session, ctx.scale(250, 4000, 1200))):
+    for fn, count in ((h1_session, ctx.scale(800, 8000, 2500)), (ws_session, ctx.scale(600, 4000, 1200)),
+                      (h2_session, ctx.scale(500, 4000, 1200))):
         for i in range(count):
             d, f = fn(ctx.seed * 32452843 + i)
             descs.append(d)
